@@ -105,6 +105,10 @@ def upper_of(ex, s, st):
     f = uf(ex, "UPPER", S, S)
     r = f(s)
     st.fact(z3.Length(r) == z3.Length(s))
+    if "printable-upper" in ex.c.opaque or "@upper_printable" in ex.c.types:
+        pr = z3.Star(z3.Range("!", "~"))
+        st.fact(z3.Implies(z3.InRe(s, pr), z3.InRe(r, pr)))  # ASCII case mapping keeps printable ASCII printable (asked for by the contract)
+        ex.assumed.add("bytes.upper maps printable ASCII to printable ASCII")
     ex.assumed.add("bytes.upper: length-preserving (ground instances)")
     return r
 
